@@ -35,7 +35,7 @@ CONFIG = {
 }
 REQUIRED = ['steps_checked', 'structure_compared', 'meaning_terms_compared', 'watched_checks', 'op_add', 'op_become', 'op_remove',
             'op_flags', 'op_obs', 'op_copy', 'op_saveload', 'copy_output_comparisons',
-            'owners_of_a_private_observed_simulator_removed_or_replaced']
+            'owners_of_a_private_observed_simulator_removed_or_replaced', 'op_become_existing', 'copies_via_copy_module']
 
 KN = {'op': 'Operation', 'prior': 'Prior', 'sim': 'Simulator', 'summary': 'Summary', 'disc': 'Discrepancy', 'const': 'Constant'}
 
@@ -53,6 +53,17 @@ def _descendants(nodes, n):
             if c not in out:
                 out.add(c)
                 st.append(c)
+    return out
+
+
+def _ancestors(nodes, n):
+    out, stack = set(), [n]
+    while stack:
+        x = stack.pop()
+        for p in list(nodes[x]['pos']) + list(nodes[x]['kw'].values()):
+            if isinstance(p, str) and p not in out:
+                out.add(p)
+                stack.append(p)
     return out
 
 
@@ -92,7 +103,7 @@ def gen_history(rng):
     nodes, ctr, hist = {}, [0], []
     for _step in range(int(rng.integers(3, 15))):
         pub = list(nodes)
-        acts = ['add'] * 3 + (['become', 'become', 'remove', 'flags', 'obs'] if pub else []) + ['copy', 'saveload']
+        acts = ['add'] * 3 + (['become', 'become', 'remove', 'flags', 'obs'] if pub else []) + ['copy', 'saveload'] + (['become_existing'] * 3 if len(pub) >= 2 else [])
         a = str(rng.choice(acts))
         if a == 'add':
             d = _new_desc(rng, ctr, pub)
@@ -110,6 +121,17 @@ def gen_history(rng):
             d = _new_desc(rng, ctr, avail, kinds=['op', 'prior', 'sim', 'summary', 'disc'] if avail else ['op', 'prior'])
             nodes[T] = d
             hist.append({'op': 'become', 'target': T, 'tmp': 'r%d' % ctr[0], 'node': d})
+        elif a == 'become_existing':
+            # the replacement is a node that has been in the model for a while (possibly through copies and earlier edits),
+            # not one created for the purpose: a childless node X; T takes over X's operation, parents and observed data, X goes
+            cand = [(T, X) for T in pub for X in pub if T != X and nodes[T]['kind'] != 'const' and nodes[X]['kind'] != 'const'
+                    and not _children(nodes, X) and X not in _descendants(nodes, T) and T not in nodes[X]['pos'] and T not in nodes[X]['kw'].values()
+                    and T not in _ancestors(nodes, X)]
+            if not cand:
+                continue
+            T, X = cand[int(rng.integers(len(cand)))]
+            nodes[T] = nodes.pop(X)
+            hist.append({'op': 'become_existing', 'target': T, 'other': X})
         elif a == 'remove':
             leaves = [n for n in pub if not _children(nodes, n)]
             if not leaves:
@@ -146,6 +168,8 @@ def apply_ref(nodes, op):
         nodes[op['name']] = copy.deepcopy(op['node'])
     elif op['op'] == 'become':
         nodes[op['target']] = copy.deepcopy(op['node'])
+    elif op['op'] == 'become_existing':
+        nodes[op['target']] = nodes.pop(op['other'])
     elif op['op'] == 'remove':
         del nodes[op['target']]
     elif op['op'] == 'flags':
@@ -193,6 +217,8 @@ def apply_elfi(m, op):
     elif op['op'] == 'become':
         R = elfi_create(m, op['tmp'], op['node'])
         m[op['target']].become(R)
+    elif op['op'] == 'become_existing':
+        m[op['target']].become(m[op['other']])
     elif op['op'] == 'remove':
         m.remove_node(op['target'])
     elif op['op'] == 'flags':
@@ -357,7 +383,12 @@ def _run(ctx, case, elfi):
         kinds.add(op['op'])
         if op['op'] in ('copy', 'saveload'):
             if op['op'] == 'copy':
-                other = m.copy()
+                # both spellings of "a copy": the method and the standard copy module
+                if si % 2:
+                    other = copy.copy(m)
+                    ctx.event('copies_via_copy_module')
+                else:
+                    other = m.copy()
             else:
                 d = tempfile.mkdtemp()
                 try:
@@ -386,7 +417,7 @@ def _run(ctx, case, elfi):
                 raise
             except Exception as e:
                 raise Violation('edit-crash', '%s raised %s: %s' % (where, type(e).__name__, str(e)[:300]))
-            if op['op'] in ('become', 'remove') and any(isinstance(q, dict) and 'psim' in q for q in nodes[op['target']]['pos']):
+            if op['op'] in ('become', 'remove', 'become_existing') and any(isinstance(q, dict) and 'psim' in q for q in nodes[op['target']]['pos']):
                 ctx.event('owners_of_a_private_observed_simulator_removed_or_replaced')
             apply_ref(nodes, op)
         ctx.event('steps_checked')
